@@ -267,6 +267,11 @@ func vdrCase(c *Ctx, focus string) {
 			continue
 		}
 		c.Res.Probes["volatile-files"]++
+		if t, err := filepath.EvalSymlinks(p); err == nil && strings.HasPrefix(t, path.Join(r.PsDir, "outs")+"/") {
+			// post-processing moved the file to outs/ and left a link behind: it is
+			// a top-level output, whatever the model could reconstruct of the run
+			continue
+		}
 		keep := named[p] || retained[p] || (rec.Logical != "" && (named[rec.Logical] || retained[rec.Logical])) ||
 			(rec.InDir != "" && (named[rec.InDir] || retained[rec.InDir]))
 		if !keep && exists(p) {
